@@ -1,6 +1,8 @@
 SPECIFICATION Spec
 CONSTANTS
-    Table = {0}
+    Tables = {{0}}
+    OvershootPadsToMultiple = TRUE
+    Sticky = FALSE
     WriteSizes = {0, 1, 1428}
     ZeroSampleGuarded = TRUE
     Modes = {0, 1, 2}
